@@ -6,6 +6,7 @@ package main
 import (
 	"fmt"
 	"hash/fnv"
+	"math"
 	"math/big"
 	"math/rand"
 	"os"
@@ -40,6 +41,63 @@ var classReps = map[string][]string{
 	"gtMax64":  {"9223372036854775808", "10000000000000000000"},
 	"maxU64":   {"18446744073709551615"},
 	"gtMaxU64": {"18446744073709551616", "100000000000000000000"},
+}
+
+// spellings of the named floats (Coerce.tla FloatNames). The FIRST spelling is the one written into
+// the SDL (schema defaults, directive arguments): it is the float's shortest exact decimal form;
+// requests use any of them. Every spelling of one name denotes the same float64.
+var fxReps = map[string][]string{
+	"fine7":   {"0.1234567", "1.234567e-1", "0.12345670"},
+	"fineBig": {"123456.7890123", "1.234567890123E5"},
+	"negFine": {"-0.0000012345", "-1.2345e-6"},
+	"tiny":    {"1e-7", "0.0000001", "1.0E-7"},
+	"denorm":  {"5e-324", "4.9406564584124654e-324"},
+	"huge":    {"1e30", "1000000000000000000000000000000.0", "1.0e+30"},
+	"maxF":    {"1.7976931348623157e308", "1.7976931348623157E+308"},
+}
+
+// checkFloats: the specification's named floats are the harness's, every spelling of a name is the
+// same finite float64, different names are different numbers, and the set has members that a
+// 6-decimal rendering changes and members it does not (so both outcomes of that rendering occur).
+func checkFloats(names []string) {
+	if len(names) != len(fxReps) {
+		vlib.Infra("named floats of the specification (%d) differ from the harness's (%d)", len(names), len(fxReps))
+	}
+	seen := map[float64]string{}
+	changed, kept := 0, 0
+	for _, n := range names {
+		reps, ok := fxReps[n]
+		if !ok {
+			vlib.Infra("no spelling for the named float %s", n)
+		}
+		f0, err := strconv.ParseFloat(reps[0], 64)
+		if err != nil || math.IsInf(f0, 0) || math.IsNaN(f0) {
+			vlib.Infra("named float %s: %q is not a finite float64", n, reps[0])
+		}
+		for _, r := range reps[1:] {
+			if f, err := strconv.ParseFloat(r, 64); err != nil || f != f0 {
+				vlib.Infra("named float %s: spelling %q is not the number %q", n, r, reps[0])
+			}
+		}
+		if o, dup := seen[f0]; dup {
+			vlib.Infra("named floats %s and %s are the same number", o, n)
+		}
+		seen[f0] = n
+		if sixDecimals(f0) != f0 {
+			changed++
+		} else {
+			kept++
+		}
+	}
+	if changed < 3 || kept < 2 {
+		vlib.Infra("named floats: %d changed by a 6-decimal rendering, %d not", changed, kept)
+	}
+}
+
+// sixDecimals is the number a "%f" rendering of f denotes.
+func sixDecimals(f float64) float64 {
+	g, _ := strconv.ParseFloat(fmt.Sprintf("%f", f), 64)
+	return g
 }
 
 // checkClasses asserts that the representatives respect the order TLC printed.
@@ -77,6 +135,7 @@ func checkClasses(order []string) {
 type conc struct {
 	pick map[string]string
 	rnd  *rand.Rand
+	sdl  bool // rendering the schema: always the first spelling
 }
 
 // the choice depends on the seed and on the case itself (not on its position in a list)
@@ -97,6 +156,21 @@ func (c *conc) num(class string) string {
 }
 
 func (c *conc) flt(v *Val) string {
+	if v.T == "fx" {
+		reps := fxReps[v.C]
+		if len(reps) == 0 {
+			vlib.Infra("no spelling for the named float %s", v.C)
+		}
+		if c.sdl {
+			return reps[0]
+		}
+		if s, ok := c.pick["fx."+v.C]; ok {
+			return s
+		}
+		s := reps[c.rnd.Intn(len(reps))]
+		c.pick["fx."+v.C] = s
+		return s
+	}
 	if v.Fr {
 		return c.num(v.C) + ".5"
 	}
@@ -144,7 +218,7 @@ func (b *builder) lit(v *Val, t *Type) string {
 		return "null"
 	case "int":
 		return b.c.num(v.C)
-	case "flt":
+	case "flt", "fx":
 		return b.c.flt(v)
 	case "nstr":
 		return strconv.Quote(b.c.num(v.C))
@@ -196,7 +270,7 @@ func (b *builder) json(v *Val) string {
 		return "null"
 	case "int":
 		return b.c.num(v.C)
-	case "flt":
+	case "flt", "fx":
 		return b.c.flt(v)
 	case "nstr":
 		return strconv.Quote(b.c.num(v.C))
@@ -265,6 +339,10 @@ func build(sch *Schema, cs *Case, seed int64) (ur.C02Case, *conc) {
 		}
 		q = "query(" + strings.Join(decl, ", ") + ") " + q
 		out.Vars = "{" + strings.Join(bound, ",") + "}"
+		// a request that binds no variable at all either has an empty `variables` object or no such member
+		if len(bound) == 0 && b.c.rnd.Intn(2) == 0 {
+			out.Vars = ""
+		}
 	}
 	out.Query = q
 	return out, b.c
@@ -278,6 +356,8 @@ var builtin = map[string]bool{"Int": true, "Float": true, "String": true, "ID": 
 // the Go binding of the custom scalars (gqlgen.yml models) and the range of that Go type
 var scalarModel = map[string]string{
 	"I32": "Int32", "I64": "Int64", "U32": "Uint32", "U64": "Uint64", "UU": "Uint", "IID": "IntID", "UID": "UintID", "Any": "Any",
+	// K reports which Go carrier its unmarshaler was handed (harness/ur/scalars/c02_kind.go)
+	"K": "verifharness/ur/scalars.C02Kind",
 }
 var scalarRange = map[string][2]string{
 	"Int": {"min64", "max64"}, "I32": {"min32", "max32"}, "I64": {"min64", "max64"}, "U32": {"zero", "maxU32"},
@@ -288,7 +368,40 @@ func renderSDL(s *Schema) string {
 	var sb strings.Builder
 	sb.WriteString("# RENDERED from the shape list spec/Coerce.tla prints (harness/cmd/c02); do not edit.\n")
 	sb.WriteString("directive @goField(forceResolver: Boolean, name: String, omittable: Boolean) on INPUT_FIELD_DEFINITION | FIELD_DEFINITION\n")
-	sb.WriteString("directive @dchk(tag: String) on FIELD_DEFINITION | ARGUMENT_DEFINITION | INPUT_FIELD_DEFINITION\n\n")
+	sb.WriteString("directive @dchk(tag: String) on FIELD_DEFINITION | ARGUMENT_DEFINITION | INPUT_FIELD_DEFINITION\n")
+	b := &builder{c: newConc(0, ""), sch: s}
+	b.c.sdl = true
+	sb.WriteString("directive @dflt(tag: String")
+	for _, a := range s.DirDef {
+		fmt.Fprintf(&sb, ", %s: %s", a.Name, a.Type.String())
+		if a.Def.T != "nodef" {
+			sb.WriteString(" = " + b.lit(a.Def, a.Type))
+		}
+	}
+	sb.WriteString(") on ARGUMENT_DEFINITION | INPUT_FIELD_DEFINITION\n\n")
+	// @dflt applied with the arguments of the specification's site; tag names the site
+	dflt := func(ty, fld string, app *Val) string {
+		if app == nil || app.T == "nodef" {
+			return ""
+		}
+		if s.byTag[ty+"."+fld] == nil {
+			vlib.Infra("@dflt at %s.%s is not among the specification's directive sites", ty, fld)
+		}
+		out := fmt.Sprintf(" @dflt(tag: %q", ty+"."+fld)
+		for _, f := range app.F {
+			var at *Type
+			for _, a := range s.DirDef {
+				if a.Name == f.K {
+					at = a.Type
+				}
+			}
+			if at == nil {
+				vlib.Infra("@dflt has no argument %s", f.K)
+			}
+			out += ", " + f.K + ": " + b.lit(f.V, at)
+		}
+		return out + ")"
+	}
 	used := map[string]bool{}
 	var walk func(t *Type)
 	walk = func(t *Type) {
@@ -307,12 +420,14 @@ func renderSDL(s *Schema) string {
 	for _, sh := range s.Shapes {
 		walk(sh.Type)
 	}
+	for _, a := range s.DirDef {
+		walk(a.Type)
+	}
 	names := make([]string, 0, len(used))
 	for n := range used {
 		names = append(names, n)
 	}
 	sort.Strings(names)
-	b := &builder{c: newConc(0, ""), sch: s}
 	for _, n := range names {
 		_, isInput := s.Inputs[n]
 		switch {
@@ -343,6 +458,7 @@ func renderSDL(s *Schema) string {
 			if f.Dir {
 				fmt.Fprintf(&sb, " @dchk(tag: %q)", f.Name)
 			}
+			sb.WriteString(dflt(n, f.Name, f.FDir))
 			if s.Binds[n] == "omit" && !f.Type.NN {
 				sb.WriteString(" @goField(omittable: true)")
 			}
@@ -359,6 +475,7 @@ func renderSDL(s *Schema) string {
 		if sh.Dir {
 			sb.WriteString(` @dchk(tag: "x")`)
 		}
+		sb.WriteString(dflt("Query", sh.ID, sh.FDir))
 		sb.WriteString("): String\n")
 	}
 	sb.WriteString("}\n")
@@ -378,7 +495,11 @@ func modelsYAML(s *Schema, mapBound bool) string {
 	}
 	sort.Strings(names)
 	for _, n := range names {
-		fmt.Fprintf(&sb, "  %s: {model: github.com/99designs/gqlgen/graphql.%s}\n", n, scalarModel[n])
+		m := scalarModel[n]
+		if !strings.Contains(m, "/") {
+			m = "github.com/99designs/gqlgen/graphql." + m
+		}
+		fmt.Fprintf(&sb, "  %s: {model: %s}\n", n, m)
 	}
 	if mapBound {
 		in := make([]string, 0)
